@@ -30,8 +30,21 @@ def input_to_text(inp):
 
 
 def parse_playback(out):
-    """concrete playback values printed by Kani, in kani::any() call order."""
-    m = re.search(r'let concrete_vals: Vec<Vec<u8>> = vec!\[(.*?)\];', out, re.S)
+    """concrete playback values printed by Kani, in kani::any() call order.  Kani prints one test per failed
+    check AND per satisfied cover: take the first one that belongs to a failed assertion."""
+    blocks = re.split(r'(?=/// Test generated for harness)', out)
+    chosen = None
+    for b in blocks:
+        if 'let concrete_vals' not in b:
+            continue
+        kind = re.search(r'/// Check for `(\w+)`', b)
+        if kind and kind.group(1) == 'cover':
+            continue
+        chosen = b
+        break
+    if chosen is None:
+        return None
+    m = re.search(r'let concrete_vals: Vec<Vec<u8>> = vec!\[(.*?)\];', chosen, re.S)
     if not m:
         return None
     vals = []
@@ -168,10 +181,14 @@ def _replay_on_real_code(template, inp, scratch):
     """template: {'file': 'src/..rs' (test module is appended there), 'test': rust source with {BYTES}, 'name': test fn name}
     Runs the project's own crate (scratch copy of /repo, sources untouched except for the appended
     #[cfg(test)] module) natively."""
-    d = os.path.join(scratch, 'replay_repo')
-    shutil.rmtree(d, ignore_errors=True)
-    os.makedirs(d)
-    subprocess.run(['rsync', '-a', '--exclude', 'target', '--exclude', '.git', vlib.REPO.rstrip('/') + '/', d + '/'], check=True)
+    # fixed path (so that cargo's incremental build of the big crate is reused between replays), one replay at a time
+    import fcntl
+    os.makedirs(os.path.join(VERIF, '.cache'), exist_ok=True)
+    lock = open(os.path.join(VERIF, '.cache', 'replay.lock'), 'w')
+    fcntl.flock(lock, fcntl.LOCK_EX)
+    d = os.path.join(VERIF, '.cache', 'replay_repo')
+    os.makedirs(d, exist_ok=True)
+    subprocess.run(['rsync', '-a', '--delete', '--exclude', 'target', '--exclude', '.git', vlib.REPO.rstrip('/') + '/', d + '/'], check=True)
     bs = inp.get('bytes') if isinstance(inp, dict) else None
     lit = '[' + ', '.join('%du8' % b for b in (bs or [])) + ']'
     code = template['test'].replace('{BYTES}', lit).replace('{JSON}', json.dumps(inp))
@@ -192,7 +209,8 @@ def _replay_on_real_code(template, inp, scratch):
     except subprocess.TimeoutExpired:
         out = '[replay] timeout'
         failed = False
-    shutil.rmtree(d, ignore_errors=True)
+    subprocess.run(['rsync', '-a', '--delete', '--exclude', 'target', '--exclude', '.git', vlib.REPO.rstrip('/') + '/', d + '/'], check=False)
+    fcntl.flock(lock, fcntl.LOCK_UN)
     return {'failed': failed, 'output': out, 'cmd': ' '.join(cmd)}
 
 
